@@ -47,7 +47,7 @@ type anyKey string
 type anyInt int16
 type anyF32 float32
 
-var anyTops = []string{"Inner", "Prims", "Opts", "Dflt", "Coll", "WithU", "Incl", "Incl2", "Rec", "Big", "IX", "IY", "U", "UN", "DOuter", "DElems", "Color", "Fx4", "DIn", "DEmp", "Wide", "Alias2", "D1"}
+var anyTops = []string{"Inner", "Prims", "Opts", "Dflt", "Coll", "WithU", "Incl", "Incl2", "Rec", "Big", "IX", "IY", "U", "UN", "DOuter", "DElems", "Color", "Fx4", "DIn", "DEmp", "Wide", "Alias2", "D1", "ONest"}
 
 type anyLoop *anyLoop
 
